@@ -414,7 +414,11 @@ func (in *Interp) mapGet(m MapV, k Value) (Value, bool) {
 		return nil, false
 	}
 	o := in.mapObj(m.H, false)
-	v, ok := o.vals[in.keyString(k)]
+	ks, found := in.mapKey(o, k)
+	if !found {
+		return nil, false
+	}
+	v, ok := o.vals[ks]
 	return v, ok
 }
 
